@@ -284,6 +284,40 @@ func runOffsetAPI(srv *lrsrv.Srv, drv *vh.Driver, h hist, sec *vh.Section, only 
 			fwd[i].Lbl = all[i]
 		}
 	}
+	// a HELD cursor (same request id) sent back to a corner position: whether the server re-positions the held cursor
+	// or builds a new one, `head` must read the whole forward result again and `tail` with offset -k its last k events
+	if only == nil && n >= 3 {
+		res.Dist(sec, "held-corner")
+		func() {
+			_, nx1, err, hung := qr.query(api.QueryRequest{Query: q, Pos: "head", Limit: 2, WaitTimeout: 1})
+			if hung || err != nil || nx1.ReqId == 0 {
+				return
+			}
+			defer cursor.VerifDropIdle(srv.Cursors)
+			got, nx2, err, hung := qr.query(api.QueryRequest{ReqId: nx1.ReqId, Query: q, Pos: "head", Limit: 10000})
+			if hung {
+				fail("hang", "a query naming a held cursor with position head did not return", probe{Kind: "held-corner"}, "no answer in 15 s", "a page")
+				return
+			}
+			if err != nil || !cmp(got, fwd) {
+				fail("held-cursor-corner-position", "a request that names a held cursor and asks for position head does not read the forward result from its beginning", probe{Kind: "held-corner", Start: 0}, fmt.Sprint(got, err), fmt.Sprint(lbls(fwd)))
+				return
+			}
+			id := nx2.ReqId
+			if id == 0 {
+				id = nx1.ReqId
+			}
+			k := 1 + n/2
+			got, _, err, hung = qr.query(api.QueryRequest{ReqId: id, Query: q, Pos: "tail", Offset: -k, Limit: 10000})
+			if hung {
+				fail("hang", "a query naming a held cursor with position tail did not return", probe{Kind: "held-corner"}, "no answer in 15 s", "a page")
+				return
+			}
+			if err != nil || !cmp(got, sliceFrom(fwd, n-k)) {
+				fail("held-cursor-corner-position", "a request that names a held cursor and asks for position tail with offset -k does not read the last k events of the forward result", probe{Kind: "held-corner", Start: n, K: -k}, fmt.Sprint(got, err), fmt.Sprint(lbls(sliceFrom(fwd, n-k))))
+			}
+		}()
+	}
 	// positions after i events, taken from pages of the forward read
 	posAfter := map[int]string{0: "head", n: "tail"}
 	at := []int{1, n / 3, n / 2, n - 1}
